@@ -10,6 +10,7 @@ import (
 	"path/filepath"
 	"strings"
 	"sync"
+	"time"
 	"unicode/utf8"
 
 	"github.com/nlnwa/whatwg-url/url"
@@ -97,10 +98,20 @@ func (d *Driver) Ask(req string) string {
 		d.dead = true
 		return "DEAD"
 	}
+	// a driver that does not answer within three minutes is killed: the check reports it instead of waiting for ever
+	timedOut := false
+	watchdog := time.AfterFunc(180*time.Second, func() {
+		timedOut = true
+		d.cmd.Process.Kill()
+	})
+	defer watchdog.Stop()
 	for {
 		line, err := d.out.ReadString('\n')
 		if err != nil {
 			d.dead = true
+			if timedOut {
+				return "TIMEOUT no answer within 180 s to " + req[:min(len(req), 200)]
+			}
 			return "DEAD"
 		}
 		line = strings.TrimRight(line, "\n")
